@@ -125,6 +125,13 @@ func worldNatHole(w *World) {
 			s.mapped = []string{fmt.Sprintf("%s:%d", base, port)}
 		case 7: // malformed
 			s.mapped = []string{extremeStr(r), fmt.Sprintf("%s:%d", base, port), "1.2.3.4:notaport"}
+			if r.Intn(2) == 0 {
+				// one bad entry anywhere among good ones, also after the list has already shown an ip and a port change
+				good := []string{fmt.Sprintf("%s:%d", base, port), fmt.Sprintf("9.9.9.9:%d", port+1), fmt.Sprintf("%s:%d", base, port+7)}
+				bad := []string{"1.2.3.4:notaport", "garbage", "1.2.3.4", extremeStr(r)}[r.Intn(4)]
+				pos := r.Intn(len(good) + 1)
+				s.mapped = append(append(append([]string{}, good[:pos]...), bad), good[pos:]...)
+			}
 		default: // public network: mapped equals local
 			s.mapped = []string{fmt.Sprintf("%s:%d", base, port), fmt.Sprintf("%s:%d", base, port)}
 			s.assisted = []string{fmt.Sprintf("%s:%d", base, port)}
